@@ -107,7 +107,12 @@ func (r *DecoratorResolver) imports(file *ast.File) (map[string]string, error) {
 			}
 			return true
 		case *ast.ImportSpec:
-			path := mustUnquote(node.Path.Value)
+			path, err := strconv.Unquote(node.Path.Value)
+			if err != nil {
+				// a file with syntax errors can hold an import spec whose path is not a string literal
+				outer = fmt.Errorf("goast.DecoratorResolver invalid import path %s: %v", node.Path.Value, err)
+				return false
+			}
 			if path == "C" {
 				return false
 			}
@@ -147,12 +152,4 @@ func (r *DecoratorResolver) imports(file *ast.File) (map[string]string, error) {
 	r.verifStep(file, "store")
 
 	return imports, nil
-}
-
-func mustUnquote(s string) string {
-	out, err := strconv.Unquote(s)
-	if err != nil {
-		panic(err)
-	}
-	return out
 }
